@@ -27,6 +27,8 @@ ASSUMPTIONS = [
     'the library\'s jitter draws are pinned to one point of their interval per case so asking instants are known in advance; the '
     'actual draws are still read from the recorder',
     'scenario ends before the first 75 % refresh (C10\'s subject)',
+    'suppression is judged by the most recent sighting of a question within 999 ms (own ask or heard as a responder), as RFC 6762 7.3 and '
+    'the library do; an earlier sighting that a later one with an unknown record has replaced creates no obligation to stay silent',
 ]
 BUDGET = {'quick': {'examples': 1400}, 'thorough': {'examples': 8000, 'shards': 16}}
 EPS = 0.05   # ms; asking instants are known exactly, only the per-iteration clock drift (microseconds) separates them
